@@ -241,6 +241,11 @@ inductive Input
   /-- `text_repr(s, multiline)`; `np` = the non-printable code points ≥ 128 occurring in `s` -/
   | textRepr (isBytes : Bool) (ml : Option Bool) (np : List Nat) (s : List Nat)
   | assert (a : AssertIn)
+  /-- a stock matcher of class `cls` built by the harness with one of the legal shapes of its constructor
+  arguments (row / variant of the harness's table: tuple of length 0/1/2, list, set, frozenset, str, bytes,
+  None, …) applied to matchee number `matchee` of the harness's pool (tuples included); the Lean side only
+  needs the class, to look up how `str()` resolves -/
+  | ctor (cls : String) (row variant matchee : Nat) (annotated verbose : Bool)
 deriving Repr
 
 inductive Trace
@@ -248,7 +253,16 @@ inductive Trace
   /-- `out = text_repr(s, ml)`, `back = literal_eval(out)`, `rep = repr(s)`, `repBack = literal_eval(rep)` -/
   | textRepr (out : List Nat) (back : Option (List Nat)) (rep : List Nat) (repBack : Option (List Nat))
   | assert (o : AssertOut)
+  /-- `str(matcher)`; and, if `match()` returned a mismatch: `describe()`, `get_details()`, `str(MismatchError)` -/
+  | ctor (str describe details errStr : R)
 deriving Repr
+
+/-- `str()` of an instance of a class of the table (a class the table does not list falls back to its own /
+`object`'s `__str__`) -/
+def strKnown (cls : String) : R :=
+  match strKinds.find? (fun p => p.1 == cls) with
+  | some (_, .inherited) => some .notImplementedError
+  | _ => none
 
 def withMessage (annotated : Bool) (m : M) : M := if annotated then .annotate m else m
 
@@ -267,5 +281,6 @@ def model : Input → Trace
     let rep := TextRepr.pyRepr b (printableOf np) s
     .textRepr out (TextRepr.pyEval b out) rep (TextRepr.pyEval b rep)
   | .assert a => .assert (assertModel a)
+  | .ctor cls _ _ _ _ _ => .ctor (strKnown cls) none none none
 
 end TTV.Describe
